@@ -416,6 +416,18 @@ def run(ctx, broken):
                    "tags": ["size-mismatch", "one-public-input-more"]})
         cc.append({"src": p.src() + ";pub 0 || " + p.src(), "cmd": "prog2", "expect": "sizeerr", "rv": None,
                    "tags": ["size-mismatch", "one-public-input-fewer"]})
+    # same number of constraints and of public inputs, but the instance carries them on OTHER rows than the compiled description
+    # (outside the property's precondition: no expectation on sat / unsat — but never a panic and never a proof that its own
+    # verifier rejects; the model decides the rest)
+    for i in range(4 if ctx.tier == "quick" else 24):
+        v1, v2 = rng.fe(), rng.fe()
+        a_src = "pub %s;w 1;bool $1;w 0;bool $2;pub %s" % (hx(v1), hx(v2))
+        b_variants = ["w 1;bool $0;pub %s;w 0;bool $2;pub %s" % (hx(v1), hx(v2)),          # first public input one row later
+                      "w 1;bool $0;w 0;bool $1;pub %s;pub %s" % (hx(v1), hx(v2)),          # both at the end
+                      "pub %s;pub %s;w 1;bool $2;w 0;bool $3" % (hx(v1), hx(v2)),          # both at the start
+                      "pub %s;w 1;bool $1;w 0;bool $2;pub %s" % (hx(v2), hx(v1))]          # values swapped, rows as compiled
+        cc.append({"src": a_src + " || " + b_variants[i % 4], "cmd": "prog2", "expect": None, "rv": None,
+                   "tags": ["public-inputs-on-other-rows"]})
     # LONG copy classes: one witness wired into m slots (all four columns of unconstrained rows, registration order
     # a0 b0 c0 d0 a1 ...). Keys compiled from A (all slots = x); instance B feeds a subset of the slots from a second
     # witness y != x: the first k slots keep x (every split position k, incl. 16, 32, 48, 64), alternating slots, a random
